@@ -21,6 +21,7 @@ import (
 	"strings"
 
 	"github.com/tidwall/tile38/verifapi"
+	"verifharness/internal/hooklife"
 	"verifharness/internal/hx"
 	"verifharness/internal/model"
 	"verifharness/internal/srv"
@@ -408,6 +409,8 @@ func runC19(r *hx.Result, cfg hx.Config) {
 	corpus(r, drv)
 	inPackage(r, cfg, rng, drv)
 	blackBox(r, cfg, rng)
+	// hook / channel registry size against the life-cycle model (Props/C19hk.v)
+	hooklife.RunC19(r, cfg)
 }
 
 // fixed regression corpus, run first
